@@ -6,7 +6,7 @@ import warnings
 from ..core import Acc, Violation, guarded, run_hypothesis, shard_seed
 
 PROPERTY = 'C18'
-RULE = ('version strings = 1-3 numeric groups over {0,1,2,3,10} x suffix in {"",a,b,rc1,-x,A} (930 strings, '
+RULE = ('version strings = 1-3 numeric groups over {0,1,2,3,10} x suffix in {"",a,b,rc1,-x,A," "," a"} (1,240 strings, '
         'enumerated) plus Hypothesis strings matching the constructor regex (no newline in suffix); every ordered pair '
         'is checked for trichotomy, agreement of the six operators with an independent reference key, string operands '
         'on either side, hash/set/dict consistency, nearest(); triples for transitivity. Non-trivial = the two strings '
@@ -18,7 +18,7 @@ FEATURES = {'version.hash': 'equal versions with different zero padding hash dif
 EXHAUSTIVE_CLAIM = True
 
 GROUPS = ['0', '1', '2', '3', '10']
-SUFFIXES = ['', 'a', 'b', 'rc1', '-x', 'A']
+SUFFIXES = ['', 'a', 'b', 'rc1', '-x', 'A', ' ', ' a']
 
 
 def universe():
@@ -225,7 +225,10 @@ def run(part, args, env):
             alphabet=st.characters(blacklist_categories=('Cs',), blacklist_characters='\n\r'), min_size=1, max_size=4)
             .filter(lambda s: not s[0].isdecimal()))
         ver = st.builds(lambda n, t, s: n + t + s, nums, trail, suf).filter(lambda s: _RE.match(s) is not None)
-        pair = st.tuples(ver, ver) | ver.map(lambda v: (v, v + '.0')) | ver.map(lambda v: (v, v))
+        nosuf = st.builds(lambda n, t: n + t, nums, trail)
+        pair = st.tuples(ver, ver) | ver.map(lambda v: (v, v + '.0')) | ver.map(lambda v: (v, v)) | \
+            nosuf.map(lambda v: (v, v + '.1')) | nosuf.map(lambda v: (v + '.0.0.1', v + '.0.0.2')) | ver.map(lambda v: (v, v + ' ')) | \
+            nosuf.map(lambda v: (v, v + '.'))
 
         def body(p):
             a, b = p
